@@ -101,6 +101,13 @@ def axes_of(f, defs=None):
         ckey = key(a, False, sub)
         lo = _resolve(f, defs, lp["node"].c[0], "init")
         hi = _resolve_upper(f, defs, lp["node"].c[1])
+        rec["lo"], rec["hi"], rec["ckey"] = lo, hi, ckey
+        # a bound may be tightened to the voxel itself under some condition (`cond ? 0 : max(..)`): offset 0 is always inside the image
+        mt_lo = re.fullmatch(r"\(\?: (.+) 0 (std::max\(.*\))\)", lo or "")
+        mt_hi = re.fullmatch(r"\(\?: (.+) 0 (std::min\(.*\))\)", hi or "")
+        if mt_lo and mt_hi and mt_lo.group(1) == mt_hi.group(1):
+            lo, hi = mt_lo.group(2), mt_hi.group(2)
+            rec["tightened"] = mt_lo.group(1)
         # lo = max(W.get_min_index(), cmin - c) ; hi = min(W.get_max_index(), cmax - c)   (either argument order)
         mlo = re.fullmatch(r"std::max\((.*)\.get_min_index\(\),\(- (.*) %s\)\)" % re.escape(ckey), lo or "") or _swapped(r"std::max", r"get_min_index", ckey, lo)
         mhi = re.fullmatch(r"std::min\((.*)\.get_max_index\(\),\(- (.*) %s\)\)" % re.escape(ckey), hi or "") or _swapped(r"std::min", r"get_max_index", ckey, hi)
@@ -149,6 +156,48 @@ def rule_a(ctx, cls, fns):
             cnt[r["level"]] = k + 1
             ctx.ob("C09.a-neighbours-inside-image", f.qn + "/" + str(len(f.params)), "axis%d#%d" % (r["level"], k), r["ok"], r["node"].where(), r["detail"])
             n += 1
+    return n
+
+
+def rule_e_one_neighbourhood(ctx, cls, fns):
+    """Value, gradient, Hessian row, Hessian-times-vector (and the surrogate curvature) of one prior are derivatives of each other only
+    if they all sum over the SAME neighbourhood: for every axis, the offset range of each of these functions is the same expression of
+    its own image, centre coordinate and the weights (names abstracted)."""
+    ENTRY = ("compute_value", "compute_gradient", "compute_Hessian", "accumulate_Hessian_times_input", "parabolic_surrogate_curvature")
+    per_axis = {}
+    for f in fns:
+        if f.short not in ENTRY or f.body is None:
+            continue
+        axs = [r for r in axes_of(f) if r.get("lo") is not None and r.get("hi") is not None]
+        centre = {}
+        for r in axs:
+            centre.setdefault(r["ckey"], "$c%d" % r["level"])
+        for r in axs:
+            canon = []
+            for b in (r["lo"], r["hi"]):
+                t = b
+                for ck_, role in sorted(centre.items(), key=lambda kv: -len(kv[0])):
+                    t = t.replace(ck_, role)
+                names = {}
+                t = re.sub(r"v\d+", lambda m: names.setdefault(m.group(0), "$%d" % len(names)), t)
+                canon.append(t)
+            per_axis.setdefault(r["level"], {}).setdefault((f.short, len(f.params)), (tuple(canon), r["node"]))
+    n = 0
+    for level, by in sorted(per_axis.items()):
+        shapes = {}
+        for who, (canon, node) in by.items():
+            shapes.setdefault(canon, []).append((who, node))
+        ok = len(shapes) == 1
+        if ok:
+            det = "%d functions sum over the same offsets along axis %d" % (len(by), level)
+            where = next(iter(by.values()))[1].where()
+        else:
+            minority = min(shapes.values(), key=len)
+            majority = max(shapes.values(), key=len)
+            where = minority[0][1].where()
+            det = "along axis %d, %s sum(s) over %s .. %s while %s sum(s) over %s .. %s: they are no longer derivatives of one another" % (level, ", ".join(w[0] for w, _n in minority), *[k for k, v in shapes.items() if v is minority][0], ", ".join(w[0] for w, _n in majority), *[k for k, v in shapes.items() if v is majority][0])
+        ctx.ob("C09.e-one-neighbourhood", "stir::" + cls, "axis%d" % level, ok, where, det)
+        n += 1
     return n
 
 
@@ -432,8 +481,8 @@ def _logcosh_to_closed_form(S, e, x, y):
 # ------------------------------------------------------------------------------------------------ d: Hessian times input
 def rule_d_hessian_times_input(ctx, cls, fns):
     """accumulate_Hessian_times_input(output, current_estimate, input): by straight-line evaluation of the innermost neighbourhood
-    loop body, the summand is  w * (d20(x_c, x_nb) * v_c + d11(x_c, x_nb) * v_nb)  off the centre and  w * d20(x_c, x_nb) * v_c  at the
-    centre (times the kappa product), and every `if (..) continue;` shortcut only skips summands that are zero under its condition
+    loop body, the summand is  w * (d20(x_c, x_nb) * v_c + d11(x_c, x_nb) * v_nb)  for every neighbour (times the kappa product), the voxel
+    itself contributes nothing (skipped, or the same formula), and every `if (..) continue;` shortcut only skips summands that are zero under its condition
     (H v must stay linear in v: a shortcut on the neighbour's input value alone would drop the d20 * v_c part)."""
     n = 0
     for f in fns:
@@ -506,6 +555,7 @@ def rule_d_hessian_times_input(ctx, cls, fns):
                                 v = v.subs(s_, D20 if nm == "derivative_20" else D11)
             return v
 
+        centre_skipped = False
         cur = None  # decl id of the summand local
         state = {}  # "centre"/"off" -> expression
         skips = []  # (condition atoms as sympy expressions that are compared with 0, node)
@@ -525,6 +575,11 @@ def rule_d_hessian_times_input(ctx, cls, fns):
                 cond = st.c[0].strip()
                 then = st.c[1]
                 is_continue = then.k == "ContinueStmt" or (then.k == "CompoundStmt" and len(then.c) == 1 and then.c[0].k == "ContinueStmt")
+                ck0 = key(cond, False, sub)
+                if is_continue and len(st.c) == 2 and all(("(== %s 0)" % d) in ck0 for d in ds) and "||" not in ck0:
+                    # `if (all offsets are 0) continue;`: the voxel is not its own neighbour
+                    centre_skipped = True
+                    continue
                 if is_continue and len(st.c) == 2:
                     atoms_ = []
                     todo = [cond]
@@ -581,10 +636,15 @@ def rule_d_hessian_times_input(ctx, cls, fns):
             continue
         w, Vc, Vn = alg.sym("w"), alg.sym("V_c"), alg.sym("V_nb")
         want_off = w * (D20 * Vc + D11 * Vn)
-        want_c = w * D20 * Vc
-        ok1 = sympy.expand(state["off"] - want_off) == 0 and sympy.expand(state["centre"] - want_c) == 0
-        ctx.ob("C09.d-hessian-times-input", fid, "summand", ok1, acc.where(), "summand = w*(d20(x_c,x_nb)*v_c + d11(x_c,x_nb)*v_nb) off the centre, w*d20*v_c at the centre" if ok1 else "summand is %s (off centre) / %s (centre)" % (state["off"], state["centre"]))
+        # the voxel itself: value and gradient get nothing from the j == k term (a function of x_j - x_j), so neither may H v.  The term
+        # is either skipped, or computed with the same formula as any neighbour (d20(x,x) + d11(x,x) = 0 is clause c's obligation).
+        want_c = want_off
+        ok_off = sympy.expand(state["off"] - want_off) == 0
+        ok_c = centre_skipped or sympy.expand(state["centre"] - want_c) == 0
+        ok1 = ok_off and ok_c
+        ctx.ob("C09.d-hessian-times-input", fid, "summand", ok1, acc.where(), "summand = w*(d20(x_c,x_nb)*v_c + d11(x_c,x_nb)*v_nb) for every neighbour; the voxel itself %s" % ("is skipped" if centre_skipped else "is treated like a neighbour (contributes (d20+d11)(x,x) v = 0)") if ok1 else ("summand is %s off the centre" % state["off"] if not ok_off else "at the centre the summand is %s: the j == k term contributes nothing to value and gradient, but this adds w[0][0][0]*d20(x_j,x_j)*v_j to H v for weights with a non-zero centre element" % state["centre"]))
         n += 1
+        want_c = 0 * w if centre_skipped else want_off
         for i, (atoms_, st) in enumerate(skips):
             bad = []
             for a in atoms_:
@@ -628,7 +688,9 @@ def run(ctx):
         rule_a(ctx, cls, fns)
         rule_bc(ctx, cls, fns)
         rule_d_hessian_times_input(ctx, cls, fns)
+        rule_e_one_neighbourhood(ctx, cls, fns)
     ctx.require_count("C09.a-neighbours-inside-image", 30)
     ctx.require_count("C09.b-weights-kappa-penalisation", 15)
     ctx.require_count("C09.c-calculus", 10)
     ctx.require_count("C09.d-hessian-times-input", 4)
+    ctx.require_count("C09.e-one-neighbourhood", 9)
